@@ -16,6 +16,20 @@ def spec_of(peer):
     return dict(banner=(peer['banner'] or 'SSH-2.0-x').encode(), kex=peer['kex'], key=peer['key'], enc=peer['enc'], mac=peer['mac'], comp=peer.get('comp', ['none']), hostkeys={})
 
 
+def inproc_ssh1_status(cmask, amask):
+    """Worst tag of the text report of a direct -1 audit of the same SSH-1 message (in-process)."""
+    from ssh_audit.ssh1_publickeymessage import SSH1_PublicKeyMessage
+    from ssh_audit.banner import Banner
+    from ssh_audit.outputbuffer import OutputBuffer
+    from ssh_audit.auditconf import AuditConf
+    from ssh_audit import ssh_audit as SA
+    pkm = SSH1_PublicKeyMessage.parse(P.pkm_payload(cmask, amask))
+    out = OutputBuffer(); out.batch = True; out.use_colors = False
+    ac = AuditConf('127.0.0.1', 22); ac.ssh1 = True; ac.ssh2 = False; ac.batch = True; ac.colors = False
+    ret = SA.output(out, ac, Banner.parse('SSH-1.99-OpenSSH_3.0'), [], pkm=pkm)
+    return ret
+
+
 def run(ctx):
     ctx.proofs(['C02'])
     q = ctx.quick
@@ -54,6 +68,10 @@ def run(ctx):
     stages = ['silent', 'close-immediately', 'garbage-banner', 'banner-only-close', 'banner-only-stall', 'truncated-kexinit', 'wrong-type', 'bad-blocksize', 'garbage-after-banner', 'kexinit-short-list']
     for st in stages * (1 if q else 6):
         cases.append((st, g.peer(), rng.choice([[], ['-j'], ['-b'], ['-l', 'fail']])))
+    # the automatic SSH-1 retry after 'Protocol major versions differ.': the status of the whole run is the status of the retry
+    for st in ('fallback-ssh1-report', 'fallback-ssh1-broken', 'fallback-ssh1-mismatch-again') * (1 if q else 4):
+        p = g.peer(); p['cmask'] = rng.choice([0x4c, 0x08, 0x48, 0x7e]); p['amask'] = rng.choice([0x0c, 0x04, 0x3e])
+        cases.append((st, p, rng.choice([[], ['-b'], ['-j']])))
     pol_cases = []
     from ssh_audit.builtin_policies import BUILTIN_POLICIES
     names = [n for n, p in BUILTIN_POLICIES.items() if p['server_policy']]
@@ -79,6 +97,10 @@ def run(ctx):
         elif kind == 'bad-blocksize': srv = P.Server(P.RawServer([b'SSH-2.0-OpenSSH_8.0\r\n', b'\x00\x00\x00\x0d\x04' + bytes(20)], then='close'))
         elif kind == 'garbage-after-banner': srv = P.Server(P.RawServer([b'SSH-2.0-OpenSSH_8.0\r\n', bytes(range(40, 90))], then='close'))
         elif kind == 'kexinit-short-list': srv = P.Server(P.RawServer([b'SSH-2.0-OpenSSH_8.0\r\n', P.frame2(bytes([20]) + bytes(16) + b'\x00\x00\x00\x05abc')], then='close'))
+        elif kind.startswith('fallback-ssh1-'):
+            first = P.RawServer([b'SSH-1.99-OpenSSH_3.0\r\n', b'Protocol major versions differ.\n'], then='close-now')
+            second = {'report': P.Ssh1Server({'cmask': p['cmask'], 'amask': p['amask']}), 'broken': P.RawServer([b'SSH-1.99-OpenSSH_3.0\r\n', b'\x00\x00'], then='close'), 'mismatch-again': first}[kind[14:]]
+            srv = P.Server(P.PerConn([first, second]))
         else: raise AssertionError(kind)
         try:
             res = z.run(['-n', '--skip-rate-test', '-t', '1'] + opts + ['127.0.0.1:%d' % srv.port], timeout=60)
@@ -134,6 +156,18 @@ def run(ctx):
             if res['rc'] != want:
                 ctx.violation('cli-status-vs-report', 'process exit status %r but the worst finding of the report is %r (options %r)' % (res['rc'], want, opts),
                               {'op': 'cli', 'kind': kind, 'opts': opts, 'peer': reportfam.jsonable_peer(p)})
+        elif kind == 'fallback-ssh1-report':
+            # a complete SSH-1 report: the exit status is its worst tag
+            if '-j' in opts:
+                has = '"key"' in out and '"fingerprints"' in out
+                want = inproc_ssh1_status(p['cmask'], p['amask'])
+            else:
+                algs = canon.parse_text(out)['algs']
+                has = any(a['cat'] == 'enc' for a in algs) and any(a['cat'] == 'key' for a in algs)
+                want = canon.worst(algs)
+            if not has or res['rc'] != want:
+                ctx.violation('fallback-ssh1-status', 'SSH-1 retry after a protocol mismatch: exit status %r, report present: %r, worst finding of the SSH-1 report: %r' % (res['rc'], has, want),
+                              {'op': 'cli', 'kind': kind, 'opts': opts, 'cmask': p['cmask'], 'amask': p['amask'], 'out': out[-400:]})
         else:
             has_report = bool(re.search(r'^\((kex|key|enc|mac)\) ', canon.strip_ansi(out), re.M)) or ('"kex"' in out)
             if res['rc'] != 1 or has_report:
